@@ -41,7 +41,7 @@ def free_port():
 class Server(object):
     def __init__(self, kind="sync", workers=1, bind="tcp", timeout=30, graceful=4, extra=(), conf_lines=(), pidfile=True,
                  env=None, threads=None, keepalive=None, bind_in_conf=False, daemon=False, pre_gid=None,
-                 extra_binds=()):
+                 extra_binds=(), systemd=False):
         self.scratch = tempfile.mkdtemp(prefix="verif-r-")
         os.chmod(self.scratch, 0o755)
         self.kind = kind
@@ -62,7 +62,17 @@ class Server(object):
         if bind_in_conf:
             self.conf_lines.append("bind = %r" % self.bind)
         self.write_conf()
-        args = [PY, os.path.join(RFILES, "launcher.py"), "-k", kind] + ([] if bind_in_conf else ["-b", self.bind]) + ["-t", str(timeout),
+        self.lsock = None
+        if systemd:
+            # socket activation: the harness owns the listening socket and hands it over as fd 3 (LISTEN_FDS=1)
+            self.lsock = socket.socket(self.family, socket.SOCK_STREAM)
+            self.lsock.setsockopt(socket.SOL_SOCKET, socket.SO_REUSEADDR, 1)
+            self.lsock.bind(self.addr)
+            self.lsock.listen(128)
+            bind_in_conf = True
+            self.conf_lines = [l for l in self.conf_lines if not l.startswith("bind")]
+            self.write_conf()
+        args = [PY, os.path.join(RFILES, "launcher_systemd.py" if systemd else "launcher.py"), "-k", kind] + ([] if bind_in_conf else ["-b", self.bind]) + ["-t", str(timeout),
                 "--graceful-timeout", str(graceful), "-c", self.conf, "--log-level", "debug"]
         if workers is not None:
             args += ["-w", str(workers)]
@@ -86,11 +96,18 @@ class Server(object):
         for b in extra_binds:
             args[args.index("rapp:app"):args.index("rapp:app")] = ["-b", b]
         pre = None
+        if systemd:
+            e["LISTEN_FDS"] = "1"
+            lfd = self.lsock.fileno()
+
+            def pre():
+                os.dup2(lfd, 3)
+                os.set_inheritable(3, True)
         if pre_gid is not None:
             def pre():      # master started as root:<pre_gid> with root's supplementary groups
                 os.setgid(pre_gid)
         self.proc = subprocess.Popen(args, cwd=self.scratch, env=e, stdout=self.logf, stderr=self.logf, stdin=subprocess.DEVNULL,
-                                     start_new_session=True, preexec_fn=pre)
+                                     start_new_session=True, preexec_fn=pre, close_fds=not systemd)
         self.pid = self.proc.pid
         self.sid = self.pid
         self.extra_masters = []
@@ -224,6 +241,8 @@ class Server(object):
         except Exception:      # noqa
             pass
         self.logf.close()
+        if self.lsock is not None:
+            self.lsock.close()
         shutil.rmtree(self.scratch, True)
 
 
